@@ -36,7 +36,7 @@ Expect  == Meaning(f, par)
 \* the property on the model: the operational parser yields exactly the declared meaning
 ParseIsMeaning == ObsCmp(Parsed, par) = ObsCmp(Expect, par)
 
-Case == [delim |-> par.delim, comment |-> par.comment, python |-> par.python, lines |-> Render(f),
+Case == [delim |-> par.delim, comment |-> par.comment, python |-> par.python, join |-> par.join, lines |-> Render(f),
          kinds |-> [i \in 1..Len(f) |-> f[i].t], exp |-> Expect, cbx |-> CbExact(f, par)]
 ExportCase == (Export /\ f # <<>> /\ (WithBad => NBad(f) = 1)) => PrintT(ToJson(Case))
 =============================================================================
